@@ -1,8 +1,12 @@
 #!/bin/sh
-# Builds the checker binary offline from files on disk only.
+# Builds the checker binary offline from files on disk only, and warms the Go build cache with the export data of
+# /repo's dependencies (the checker loads dependencies from export data; without a warm cache the first check pays
+# for compiling them).
 set -e
 cd "$(dirname "$0")/checker"
 export GOFLAGS=-mod=mod GOPROXY=off GOSUMDB=off GOTOOLCHAIN=local
 unset GOWORK
 mkdir -p ../bin
 go build -o ../bin/verifcheck ./cmd/verifcheck
+(cd "${VERIF_REPO:-/repo}" && go list -export -deps ./... >/dev/null 2>&1 || true)
+(cd "${VERIF_REPO:-/repo}/cmd/arcaflow-codegen" && go list -export -deps ./... >/dev/null 2>&1 || true)
